@@ -437,6 +437,29 @@ def real_dataset_checks(tier):
     CFGrid2D(b).bind()
     if make_cache_key(a) == make_cache_key(b):
         V('real:shoc_simple:bound-cf2d', 'a dataset bound to another convention class gets a different key', 'ShocSimple vs CFGrid2D on the same file')
+    # which variables are geometry does not depend on unrelated content: the size-two dimension of the edge tables has
+    # another name here, and an unrelated variable brings in a dimension called Two
+    mesh = builders.ugrid('tqp', supply=('edge_node', 'edge_face'), fill='nan').rename_dims({'Two': 'nv'})
+    k0 = key_of(mesh)
+    extra = mesh.assign(time_bnds=(('t', 'Two'), numpy.zeros((3, 2))))
+    if key_of(extra) != k0:
+        V('real:ugrid:unrelated-Two-dimension', 'editing non-geometry content does not change the cache key', 'a variable time_bnds(t, Two) added')
+    edited = extra.copy(deep=True)
+    edited['edge_node'].values[0, 0] += 1
+    if key_of(edited) == key_of(extra):
+        V('real:ugrid:unrelated-Two-dimension', 'a single edit of a geometry variable changes the cache key', 'edge_node edited while an unrelated Two dimension exists')
+    # bounds held as xarray coordinates are geometry all the same
+    builders.BOUNDS_AS_COORDS = True
+    try:
+        for conv in ('cf1d', 'cf2d'):
+            d0 = _dataset(conv)
+            b = [n for n in d0.coords if str(n).endswith('_bnds')][0]
+            d1 = d0.copy(deep=True)
+            d1[b].values.reshape(-1)[0] += 0.125
+            if key_of(d1) == key_of(d0):
+                V(f'real:{conv}:bounds-as-coordinates', 'a single edit of a geometry variable changes the cache key', f'{b} (a coordinate) edited')
+    finally:
+        builders.BOUNDS_AS_COORDS = False
     # connectivity variables: index tables and their fill / start_index attributes are geometry too
     for supply, extra in ((('edge_node', 'face_edge'), dict()), (('face_edge',), dict(edge_dimension_attr=False, with_edges=False)),
                           (('edge_node', 'edge_face', 'face_face'), dict())):
